@@ -249,6 +249,7 @@ func OracleC11Matrix(w *World, h *History) {
 // ---- settings variants -------------------------------------------------------------------
 
 type settingsCase struct {
+	windowOverrun  string
 	variant        int
 	workable       bool
 	wantRev        int32
@@ -349,6 +350,7 @@ func runSettings(w *World, rs *RunSpec) {
 	script := func(rsv *RawServer) {
 		switch v.first {
 		case "":
+			rsv.Window, rsv.HaveWindow = v.win, true
 			rsv.Send(SSettings(v.id, v.win, v.revs...))
 		case "headers":
 			rsv.Send(SHeaders(1, nil))
@@ -367,6 +369,7 @@ func runSettings(w *World, rs *RunSpec) {
 			sc.rpcRev = int32(nsf.ProtocolRevision)
 			sc.rpcRan = true
 		})
+		sc.windowOverrun = rsv.WindowOverrun
 	}
 	var t *Tunnel
 	t0 := simrt.VirtualNow()
@@ -451,6 +454,9 @@ func OracleC11Settings(w *World, h *History) {
 		if e.Kind == EvCheckpoint && e.S == "settings-rpc-stalled" {
 			w.AddViolation("C11", "negotiation-hang", "an RPC on the tunnel neither completed nor failed: the run stalled", det, e.Seq)
 		}
+	}
+	if sc.windowOverrun != "" {
+		w.AddViolation("C11", "settings-window-ignored", "the client did not keep to the window of the settings message: "+sc.windowOverrun, det, 0)
 	}
 	if sc.workable {
 		if !sc.started || sc.chanDone {
